@@ -82,7 +82,7 @@ def witness_search(pid, names, repo, scratch, say):
     return None
 
 
-def make_replay(pid, mine, kani_fail, meta, repo, scratch, say, tier, standin_hit=None):
+def make_replay(pid, mine, kani_fail, meta, repo, scratch, say, tier, standin_hit=None, kani_cex=None):
     d = _replay_dir()
     n = 0
     while os.path.exists(os.path.join(d, '%s-%d.json' % (pid, n))):
@@ -103,11 +103,13 @@ def make_replay(pid, mine, kani_fail, meta, repo, scratch, say, tier, standin_hi
             witness = witness_search(pid, list(mine), repo, scratch, say)
     except Exception as e:  # noqa  -- the search must never turn into an error of its own
         say(pid, 'witness search did not run: %s' % e)
+    if witness is None and kani_cex:
+        witness = kani_cex[0]      # the verifier's own counterexample (Kani concrete playback)
     rec = {'property': pid, 'created': time.strftime('%Y-%m-%dT%H:%M:%S'), 'failed_obligations': obligations,
            'witness': witness, 'found_input': witness is not None}
     json.dump(rec, open(path, 'w'), indent=1)
     if witness:
-        say(pid, 'concrete failing input found by the witness search: %s' % json.dumps(witness)[:300])
+        say(pid, 'concrete failing input (%s): %s' % (witness.get('search'), json.dumps({k: v for k, v in witness.items() if k != 'test'})[:300]))
     return {'path': path, 'found_input': witness is not None}
 
 
@@ -121,6 +123,13 @@ def replay(pid, path, repo, scratch, say):
     if not w:
         print('no concrete input was found for this violation (no-failing-input-found); the obligations above are re-checked by ./check %s' % pid)
         return 0
+    if w.get('search') == 'kani-playback':
+        import kani_run
+        print(w['test'])
+        ok, tail = kani_run.replay_playback(w, repo, scratch)
+        print(tail)
+        print('REPRODUCED: the concrete playback test fails on the real code' if ok else 'not reproduced')
+        return 1 if ok else 0
     exe = build_replay_crate(repo, scratch)
     if not exe:
         print('replay crate did not build')
